@@ -119,7 +119,9 @@ func RunStream(c StreamCase) (res Result) {
 func RunStreamArgs(seed int64) (res Result) {
 	res.ID = "args"
 	res.Violations = []Violation{}
-	add := func(detail string) { res.Violations = append(res.Violations, Violation{"C14", "ArgumentLengths", detail}) }
+	add := func(detail string) {
+		res.Violations = append(res.Violations, Violation{"C14", "ArgumentLengths", detail})
+	}
 	defer func() {
 		if r := recover(); r != nil {
 			res.Violations = append(res.Violations, Violation{"C09", "NoPanic", fmt.Sprintf("chacha constructors: panic: %v", r)})
